@@ -94,6 +94,7 @@ func DrawConf(c *choice.Stream) *Conf {
 	}
 	cf.ReadTimeout = []time.Duration{0, 10 * time.Millisecond, time.Second}[c.Weighted("readtimeout", 4, 1, 1)]
 	cf.DebugLog = c.Bool("debuglog", 1, 4)
+	cf.Otel = c.Bool("otel", 1, 4) // instrumented code path (global no-op providers unless C12 installs an SDK)
 	cf.FrameChunk = c.Pick("srv.framechunk", 0, 0, 0, 3, 33, 1000)
 	cf.LCKeyWidth = c.Pick("srv.lckeys", 0, 0, 0, 1, 2, 3)
 	cf.Hello = refproto.ServerHello{Name: "ClickHouse", Major: 23, Minor: 8, Revision: cf.ServerRev, Timezone: "UTC", DisplayName: "sim", Patch: 3}
